@@ -131,7 +131,23 @@ mod imp {
         let mut failed: Option<String> = None;
         for _ in 0..n {
             TRACE.with(|t| t.borrow_mut().clear());
+            let t0 = std::time::Instant::now();
             let r = std::panic::catch_unwind(std::panic::AssertUnwindSafe(|| body()));
+            if t0.elapsed().as_secs() >= 5 {
+                // diagnostic only: one iteration that takes this long usually means a harness walking a huge range
+                let mut text = format!("harness {}\n# slow iteration ({} s)\n", harness, t0.elapsed().as_secs());
+                TRACE.with(|t| {
+                    for v in t.borrow().iter() {
+                        let l: Vec<String> = v.iter().map(|b| b.to_string()).collect();
+                        text.push_str(&l.join(" "));
+                        text.push('\n');
+                    }
+                });
+                if let Ok(prefix) = std::env::var("VERIF_SAMPLE_OUT") {
+                    let _ = std::fs::write(format!("{}{}.slow.txt", prefix, harness), &text);
+                }
+                println!("SAMPLED-SLOW harness={} secs={}", harness, t0.elapsed().as_secs());
+            }
             match r {
                 Ok(()) => ran += 1,
                 Err(e) => {
